@@ -483,8 +483,8 @@ Proof.
 Qed.
 
 (* ---------- C10 on the tree model ---------- *)
-Theorem lookups_total_consistent o keys vals T q :
-  build o keys vals = Ok T ->
+Theorem lookups_total_consistent_gen b o keys vals T q :
+  build_gen b o keys vals = Ok T ->
   (* total: never a panic / out-of-fuel outcome *)
   (exists f, get T q = Ok f) /\ (exists f, rangeget T q = Ok f) /\ (exists s, search T q = Ok s) /\
   (* Get, GetID and the exact result of Search agree *)
@@ -497,7 +497,7 @@ Theorem lookups_total_consistent o keys vals T q :
   (forall v, get T q = Ok (Found v) ->
      exists i, i < length keys /\ retained o keys vals i = true /\ val_bytes v = supplied vals i /\ (vals = None -> v = None)).
 Proof.
-  intros Hb. destruct (build_ok _ _ _ _ Hb) as [[-> ->]|(r & lidx & B)].
+  intros Hb. destruct (build_gen_ok b _ _ _ _ Hb) as [[-> ->]|(r & lidx & B)].
   { cbn. repeat split; eauto; try discriminate. }
   pose proof (searchid_eq_getid o keys vals T r lidx q B) as Heq.
   pose proof (root_inv o keys vals (bt_sorted _ _ _ _ _ _ B) (bt_nonempty _ _ _ _ _ _ B)) as I.
@@ -545,3 +545,18 @@ Proof.
     + cbn [opt_leaf_value] in Hlv. unfold bind in Hlv. destruct (leaf_value T n); [eauto|discriminate].
     + eauto.
 Qed.
+
+Theorem lookups_total_consistent o keys vals T q :
+  build o keys vals = Ok T ->
+  (* total: never a panic / out-of-fuel outcome *)
+  (exists f, get T q = Ok f) /\ (exists f, rangeget T q = Ok f) /\ (exists s, search T q = Ok s) /\
+  (* Get, GetID and the exact result of Search agree *)
+  (get T q = Ok NotFound <-> getid T q = None) /\
+  (forall v, get T q = Ok (Found v) -> exists lv rv, search T q = Ok (lv, Some v, rv)) /\
+  (get T q = Ok NotFound -> exists lv rv, search T q = Ok (lv, None, rv)) /\
+  (* RangeGet reports found whenever Get does, with the same value *)
+  (forall v, get T q = Ok (Found v) -> rangeget T q = Ok (Found v)) /\
+  (* a hit carries the value supplied for a retained key *)
+  (forall v, get T q = Ok (Found v) ->
+     exists i, i < length keys /\ retained o keys vals i = true /\ val_bytes v = supplied vals i /\ (vals = None -> v = None)).
+Proof. exact (lookups_total_consistent_gen true o keys vals T q). Qed.
